@@ -44,6 +44,11 @@ inductive TPipe where
   | slice (sel : List Nat) (p : TPipe)          -- index driven: `for idx in sel: yield input[idx]`
   | zip (p q : TPipe)
   | localShuffle (bs : Nat) (choices : List Nat) (final : List Nat) (p : TPipe)
+  | catch (E : List Err) (p : TPipe)            -- index driven: `for i in range(len(input)): try: yield input[i] except E: continue`
+  | reshuffle (perm : List Nat) (p : TPipe)     -- `for idx in perm: yield input[idx]`, `perm` = the drawn permutation
+  | cache (p : TPipe)                           -- first pass over an empty cache: `for i in range(len(self)): yield self[i]`
+  | tile (r : Nat) (p : TPipe)                  -- `ConcatenateDataset([input] * r)`
+  | intersperse (p q : TPipe)                   -- `IntersperseDataset(p, q)`
   deriving Repr
 
 /-- `for x in input: yield f(x)` -/
@@ -134,6 +139,29 @@ def localT (bs : Nat) : List (Log × Val) → List Val → Log → List Nat → 
       | [] => ⟨[], lg ++ l, some .indexError⟩
     else localT bs rest buf' (lg ++ l) choices final tl e
 
+/-- `ConcatenateDataset([input] * r).__iter__`: the input is iterated afresh `r` times, one pass after the other
+    (`tileT t 1 = t`, see `tileT_one`) -/
+def tileT (t : TStream) : Nat → TStream
+  | 0 => ⟨[], [], none⟩
+  | r + 1 => appendT t (tileT t r)
+
+/-- IntersperseDataset.__iter__: `iterators = [iter(p), iter(q)]; for (_, d, _) in order: yield next(iterators[d])`.
+    `ca`/`cb` = what the two traced generators still have to yield.  A part that is exhausted when asked ends
+    the stream: with its own error, or — the generator returned, `next` raised StopIteration inside a generator
+    (PEP 479) — with RuntimeError; the calls after its last `yield` have run by then.  After the last entry of
+    the table the loop just ends: nobody resumes the parts again, their tails never run. -/
+def interT : List OrdEntry → List (Log × Val) → Log → Option Err → List (Log × Val) → Log → Option Err → TStream
+  | [], _, _, _, _, _, _ => ⟨[], [], none⟩
+  | o :: rest, ca, tla, ea, cb, tlb, eb =>
+    if o.d == 0 then
+      match ca with
+      | (lg, v) :: ca' => let t := interT rest ca' tla ea cb tlb eb; ⟨(lg, v) :: t.chunks, t.tail, t.err⟩
+      | [] => ⟨[], tla, some (match ea with | some er => er | none => .runtimeError)⟩
+    else
+      match cb with
+      | (lg, v) :: cb' => let t := interT rest ca tla ea cb' tlb eb; ⟨(lg, v) :: t.chunks, t.tail, t.err⟩
+      | [] => ⟨[], tlb, some (match eb with | some er => er | none => .runtimeError)⟩
+
 /-- `len(ds)` where the class offers one -/
 def lenT : TPipe → Option Nat
   | .src xs => some xs.length
@@ -145,6 +173,11 @@ def lenT : TPipe → Option Nat
   | .slice sel _ => some sel.length
   | .zip p _ => lenT p
   | .localShuffle _ _ _ p => lenT p
+  | .catch _ _ => none
+  | .reshuffle _ p => lenT p
+  | .cache p => lenT p
+  | .tile r p => (lenT p).map (r * ·)
+  | .intersperse p q => do let a ← lenT p; let b ← lenT q; pure (a + b)
 
 mutual
 /-- traced iteration -/
@@ -161,6 +194,23 @@ def iterT (ρ : Env) : TPipe → TStream
     let b := iterT ρ q
     zipT a.chunks a.tail a.err b.chunks b.tail b.err
   | .localShuffle bs choices final p => let t := iterT ρ p; localT bs t.chunks [] [] choices final t.tail t.err
+  | .catch E p =>
+    match lenT p with
+    | some n => catchT ρ E p (List.range n) []
+    | none => ⟨[], [], some .typeError⟩
+  | .reshuffle perm p => sliceT ρ p perm
+  | .cache p =>
+    match lenT p with
+    | some n => sliceT ρ p (List.range n)
+    | none => ⟨[], [], some .typeError⟩
+  | .tile r p => tileT (iterT ρ p) r
+  | .intersperse p q =>
+    match lenT p, lenT q with
+    | some n₁, some n₂ =>
+      let a := iterT ρ p
+      let b := iterT ρ q
+      interT (intersperseOrder [n₁, n₂]) a.chunks a.tail a.err b.chunks b.tail b.err
+    | _, _ => ⟨[], [], some .typeError⟩
 /-- traced `ds[i]` for a non-negative in-range `i` (the calls made for exactly that result) -/
 def getT (ρ : Env) : TPipe → Nat → Log × Res Val
   | .src xs, i => ([], match xs[i]? with | some v => .ok v | none => .error .indexError)
@@ -176,8 +226,9 @@ def getT (ρ : Env) : TPipe → Nat → Log × Res Val
     match lenT p with
     | some n => if i < n then getT ρ p i else getT ρ q (i - n)
     | none => ([], .error .typeError)
-  | .batch n _ p, i =>
+  | .batch n dl p, i =>
     -- `for t in range(n): input[i*n+t]`, an IndexError after the first element ends the batch
+    -- (`if i == 0 or self.drop_last: raise`: with `drop_last` an incomplete batch is refused)
     let rec go (t : Nat) (fuel : Nat) (lg : Log) (acc : List Val) : Log × Res Val :=
       match fuel with
       | 0 => (lg, .ok (.list acc.reverse))
@@ -185,7 +236,7 @@ def getT (ρ : Env) : TPipe → Nat → Log × Res Val
         match getT ρ p (i * n + t) with
         | (l, .ok v) => go (t + 1) fuel (lg ++ l) (v :: acc)
         | (l, .error e) =>
-          if e == .indexError && t != 0 then go (t + 1) fuel (lg ++ l) acc else (lg ++ l, .error e)
+          if e == .indexError && t != 0 && !dl then go (t + 1) fuel (lg ++ l) acc else (lg ++ l, .error e)
     go 0 n [] []
   | .zip p q, i =>
     match getT ρ p i with
@@ -197,6 +248,21 @@ def getT (ρ : Env) : TPipe → Nat → Log × Res Val
   | .filter _ _ _, _ => ([], .error .assertionError)
   | .unbatch _, _ => ([], .error .notImplemented)
   | .localShuffle _ _ _ _, _ => ([], .error .typeError)
+  | .catch _ _, _ => ([], .error .notImplemented)
+  | .reshuffle _ _, _ => ([], .error .typeError)
+  | .cache p, i => getT ρ p i                       -- a fresh cache: `self[i]` fetches `input[i]`
+  | .tile r p, i =>
+    match lenT p with
+    | some n => if i < r * n then getT ρ p (i % n) else ([], .error .indexError)
+    | none => ([], .error .typeError)
+  | .intersperse p q, i =>
+    -- `(_, d, j) = order[i]; return parts[d][j]`
+    match lenT p, lenT q with
+    | some n₁, some n₂ =>
+      match (intersperseOrder [n₁, n₂])[i]? with
+      | some o => if o.d == 0 then getT ρ p o.j else getT ρ q o.j
+      | none => ([], .error .indexError)
+    | _, _ => ([], .error .typeError)
 /-- `for idx in sel: yield input[idx]` -/
 def sliceT (ρ : Env) (p : TPipe) : List Nat → TStream
   | [] => ⟨[], [], none⟩
@@ -204,6 +270,15 @@ def sliceT (ρ : Env) (p : TPipe) : List Nat → TStream
     match getT ρ p j with
     | (lg, .ok v) => let t := sliceT ρ p rest; ⟨(lg, v) :: t.chunks, t.tail, t.err⟩
     | (lg, .error e) => ⟨[], lg, some e⟩
+/-- CatchExceptionDataset.__iter__ over the positions `sel` (= `range(len(input))`): `pending` = the calls of the
+    positions skipped since the last `yield` -/
+def catchT (ρ : Env) (E : List Err) (p : TPipe) : List Nat → Log → TStream
+  | [], pending => ⟨[], pending, none⟩
+  | j :: rest, pending =>
+    match getT ρ p j with
+    | (lg, .ok v) => let t := catchT ρ E p rest []; ⟨(pending ++ lg, v) :: t.chunks, t.tail, t.err⟩
+    | (lg, .error e) =>
+      if e.isAny E then catchT ρ E p rest (pending ++ lg) else ⟨[], pending ++ lg, some e⟩
 end
 
 end LazyDs.Trace
